@@ -126,7 +126,8 @@ def _cache_load(job, tier):
     r.cover = tuple(d['cover'])
     r.solver_s = 0.0
     r.cached_solver_s = d['solver_s']
-    r.backend = d['backend'] + ' [verdict reused from an identical job solved earlier: %s]' % d.get('when', '')
+    r.backend = d['backend'] + ' [verdict reused from an identical job solved earlier]'
+    r.cached_when = d.get('when', '')
     r.cmds = d.get('cmds', [])
     r.cross = None
     r.from_cache = True
@@ -347,6 +348,8 @@ def run_property(prop, spec, tier, seed, only_units=None):
                         'loop_contract_obligations': r.loop_obligations,
                         'cover_goals': '%d/%d' % (ch, ct),
                         'solver_s': round(r.solver_s, 2),
+                        **({'solver_s_when_solved': round(getattr(r, 'cached_solver_s', 0.0), 2), 'solved_at': getattr(r, 'cached_when', '')}
+                           if getattr(r, 'from_cache', False) else {}),
                         'backend': r.backend +
                         (' + cadical cross-check' if r.cross is not None else '')})
         for ob in r.obligations[:2]:
@@ -472,6 +475,7 @@ def run_property(prop, spec, tier, seed, only_units=None):
             'backends': sorted(set(x['backend'] for x in per_job if 'backend' in x)),
             'solver_s': round(solver_s, 1),
             'jobs_with_verdict_reused': cache_hits,
+            'solver_s_of_reused_verdicts_when_solved': round(sum(x.get('solver_s_when_solved', 0.0) for x in per_job), 1),
             'verdict_reuse_rule': 'a job whose generated C text, shim headers and tool flags are byte-identical to a job that discharged every obligation earlier (same /verif/.work/cache) is not solved again; extraction and C generation from /repo are redone every run; failures are never reused; YV_NO_CACHE=1 disables',
             'functions_under_contract': funcs,
             'jobs': per_job,
